@@ -15,6 +15,12 @@ CHECKS = {
         "note": "trusts jqref.paths/update as a reading of advanced.dj; the manual's displayed *_upd definitions are used only on the domain where they agree with the manual's prose (triage log, DESIGN §8); key order after deleting updates not compared",
         "technique": "runtime monitoring: reference-model monitor for path()/update tables + in-language metamorphic equations, exhaustive small scope",
     },
+    "C03": {
+        "text": "Held on the executions observed: generated stream producers (34 producer kinds: commas, pipes, bindings, if, //, try, reduce/foreach, recursive and infinite definitions, repeat, recurse, zero-step range, limit/first/skip, filter parameters and closures, label/break, path indices, updates, interpolation, objects, inputs/input over finite and endless input iterators) carry effect markers; jqref records, for every marker firing, how many outputs precede it; the real interpreter is then pulled output by output (library iterator, every cut at once) and run under 12 prefix consumers x cuts x arming modes (markers behind the cut armed to raise an error, halt, or consume an input): effect log, inputs pulled and ticks at the moment output k is delivered must not exceed what the semantics allows, and consumer results must be unchanged by arming. Plus the command line fed an endless stdin must finish after bounded consumption.",
+        "design_ref": "DESIGN.md §4 C03",
+        "note": "only 'not more than the left-to-right semantics allows before output k' is demanded; divergence is observed through markers/ticks/bytes consumed, never through wall-clock; trusts jqref's evaluation order",
+        "technique": "runtime monitoring: effect-trace monitor with inert and armed marker natives, checked against a reference trace",
+    },
     "C08": {
         "text": "Held on the executions observed: whole comparison matrices over pools of typed values (every number representation of equal values, representation boundaries, text/byte strings, objects in different insertion orders) computed by the real interpreter, compared with the manual's order and checked model-free for trichotomy, antisymmetry and transitivity; sort/unique/group_by/min/max/bsearch/array-minus checked against the same order; model-equal values substituted for each other in 20 lookup/dedup contexts. Bounded by the pools; no proof.",
         "design_ref": "DESIGN.md §4 C08",
